@@ -95,7 +95,7 @@ func (h264dp *h264Depacketizer) depacketizeStapa(packet *Packet) (err error) {
 	//  +-+-+-+-+-+-+-+-+-+-+-+-+-+-+-+-+-+-+-+-+-+-+-+-+-+-+-+-+-+-+-+-+
 	off := 1 // 跳过 STAP-A NAL HDR
 	// 循环读取被封装的NAL
-	for {
+	for off+2 < len(payload) { // 至少还有长度字段和 1 字节 NAL
 		// nal长度
 		nalSize := ((uint16(payload[off])) << 8) | uint16(payload[off+1])
 		if nalSize < 1 {
@@ -103,6 +103,9 @@ func (h264dp *h264Depacketizer) depacketizeStapa(packet *Packet) (err error) {
 		}
 
 		off += 2
+		if off+int(nalSize) > len(payload) {
+			return fmt.Errorf("stap-a: nal size %d exceeds payload", nalSize)
+		}
 		frame := &codec.Frame{
 			MediaType: codec.MediaTypeVideo,
 			Payload:   make([]byte, nalSize),
